@@ -4,6 +4,7 @@ CONSTANTS
  Outlines <- MCOutlines
  Oracles <- MCOracles
  CrashSets <- MCCrashSets
+ Lag <- MCLag
 INVARIANT C09_Prefix
 INVARIANT C09_Finished
 INVARIANT C09_OneStepPerUnit
